@@ -539,6 +539,7 @@ Definition ev_ok (d : dec) (l : list Z) : bool :=
   | 666 :: _ => false          (* a thread reached a scheduling point while holding the pool mutex *)
   | 777 :: _ => false          (* deadlock *)
   | 888 :: _ => false          (* a thread used the pool after ~thread_pool returned *)
+  | [400; n] => Z.eqb n 0      (* submissions neither run nor cancelled when ~thread_pool returned (engine poolf) *)
   | _ => true
   end.
 (* every submission that the case declares at top level was made (labels 0..j-1 all present) *)
